@@ -923,16 +923,23 @@ def c09_t2(ctx, f):
     fa = anchor_fn(ctx, rid, f, "encode::ascii_to_alphanumeric", ["u8"], "usize")
     fd = anchor_fn(ctx, rid, f, "encode::ascii_to_digit", ["u8"], "usize")
     F = mkfolder(f)
+
+    def _val(r):
+        """the converter's value: an integer, or the payload of Some(..) when it reports a rejected byte as None"""
+        v = retval(r)
+        if isinstance(v, dict) and v.get("variant") == "Some" and v.get("fields"):
+            return v["fields"][0]
+        return v
     if fa:
         for i, ch in enumerate(ref.ALNUM):
             r = F.run(fa.path, [mk_int("u8", ord(ch))])
-            ctx.check(rid, retval(r) == i, "%s/0x%02x" % (fa.path, ord(ch)), where_fn(fa), fa.path, "char %r" % ch,
+            ctx.check(rid, _val(r) == i, "%s/0x%02x" % (fa.path, ord(ch)), where_fn(fa), fa.path, "char %r" % ch,
                       "alphanumeric value differs from ISO Table 5 (or the converter rejects an admitted character)",
                       expected=i, found=describe(r), sample="%r -> %s" % (ch, retval(r)))
     if fd:
         for d in range(10):
             r = F.run(fd.path, [mk_int("u8", 0x30 + d)])
-            ctx.check(rid, retval(r) == d, "%s/%d" % (fd.path, d), where_fn(fd), fd.path, "digit %d" % d,
+            ctx.check(rid, _val(r) == d, "%s/%d" % (fd.path, d), where_fn(fd), fd.path, "digit %d" % d,
                       "digit value wrong", expected=d, found=describe(r), sample="'%d' -> %s" % (d, retval(r)))
 
 
